@@ -23,6 +23,14 @@ CHECKS = {
 }
 
 PENDING = {}
+CHECKS["C02"] = ("atomic", "fault_enumeration",
+   "For wallet states reached by fault-free histories on a real SQLite wallet (both journal modes) and for each of twelve write operations (scan_cached_blocks/put_blocks, truncate_to_height, truncate_to_chain_state, update_chain_tip, create_account, import_account_ufvk, delete_account, put_*_subtree_roots, get_next_available_address, put_received_transparent_utxo, set_transaction_status, queue_rescans; legal and illegal arguments): a reference run on a copy gives the post-state, VM-step, commit and row-write counts; the operation is then repeated on the original with SQLITE_INTERRUPT at stratified + sampled VM steps, a statement-level ABORT at sampled row writes that leaves the transaction open (TEMP triggers), each commit refused, database+journal/WAL images copied mid-operation and recovered by a fresh connection, a second connection dumping the database inside one read transaction (and get_wallet_summary) from inside the writer's progress handler and right after every commit, the writer run from inside a reader's progress handler, and an un-faulted retry. Every outcome must be (Err and pre-state) or (Ok and reference post-state), through both connections; every snapshot and recovered image must be pre or post; no transaction may be left open; the retry must reproduce the reference post-state. Fault positions are sampled inside each operation, not enumerated exhaustively.",
+   "4.2", "Interrupts are not delivered to BEGIN/ROLLBACK/SAVEPOINT/RELEASE statements (an interrupted transaction-control statement is an artefact of sqlite3_interrupt, not of I/O failure); an error after the operation's final commit with the complete post-state is accepted (the retry is idempotent); store_decrypted_tx, store_transactions_to_be_sent, lock_outputs and the migration store are not yet swept; the disk below SQLite is real tmpfs.",
+   "deterministic simulation: fault / crash / second-connection interleaving at seeded SQLite VM steps vs. reference post-state")
+CHECKS["C05"] = ("batch", "exploration",
+   "Generated chains (three pools, several accounts, internal/external/foreign outputs, spends of tracked and untracked nullifiers, multi-transaction blocks) are scanned range by range. A well-formed range is scanned inline (public scan_block + put_blocks) on a copy and through scan_cached_blocks on the wallet while the simulator owns every batch-decryption task: guarded hook H1 hands the tasks BatchRunner would give to rayon to the simulator, hook V1 in a vendored flume calls the simulator when a receive is about to block; the choice stream picks the flush threshold (1,2,3,7,20,100), which tasks run at the spawn point, and in which order the rest run at blocking receives; a receive that blocks with no task pending is a reported deadlock. The two databases must be identical and equal the generator's ground truth (account, value, scope, position, nullifier, spends). Other ranges carry one continuity corruption (height, prev_hash, per-pool tree sizes) or one malformed field (16 kinds) and must be rejected with an error, without panic and without any change to the wallet.",
+   "4.4", "Task-atomic schedules (a batch task runs to completion once started); the tokio sync decryptor is not simulated; documented panics on wrong-length block hash / prev_hash / txid, height >= 2^32 and tx index >= 2^16 are listed known findings.",
+   "deterministic simulation: simulator-owned task scheduler (spawn + blocking-receive seams) and corrupted block sources vs. inline scan and generator ground truth")
 CHECKS["C01"] = ("ledger", "exploration",
    "Seeded search over wallet histories on a real SQLite wallet fed by a simulated, forkable chain (real note encryption, several accounts, three pools, internal/external receipts, spends, foreign traffic, empty blocks): honest sync steps from either end, arbitrary-order scans with repeats, forks with re-mined transactions, explicit rewinds, restarts, tip updates, failing / stale block sources and SQLite interrupts, then a fault-free sync to completion. After every operation the reported total+uneconomic balance per account and pool must equal the ledger of notes received and not spent in scanned blocks of the current chain (an envelope only while transactions orphaned by a rewind are within their 40-block expiry guess), every scanned note must be present with the right account, value, scope, nullifier, position, mined height and spend, and nothing phantom may exist; when fully scanned, mined notes, spends and balances must equal those of a fresh wallet that scanned the same chain once in height order. Sampling, not enumeration.",
    "4.1", "Transparent coins enter only through wallet-built transactions (not yet part of this check); prior chain states handed to the wallet are the true frontiers; a rewind refused by the wallet ends the run without verdict.",
@@ -79,8 +87,6 @@ def main():
 
 HOOK_COMMITS = ["abbf854"]
 PENDING.update({
- "C02": "check not built yet at this commit (planned: wallet-sim atomic, DESIGN.md section 4.2)",
- "C05": "check not built yet at this commit (planned: scan-sim batch, DESIGN.md section 4.4)",
  "C08": "check not built yet at this commit (planned: wallet-sim spend, DESIGN.md section 4.6)",
  "C13": "check not built yet at this commit (planned: pczt-sim parties, DESIGN.md section 4.7)",
  "C17": "check not built yet at this commit (planned: migration-sim clock, DESIGN.md section 4.9)",
